@@ -214,6 +214,9 @@ class Output(Formatter):
 
         section = SectionOutput(self._stream, self._section_outputs, self._formatter)
         section.indent(self._indent)
+        # A section of a quiet (or verbose) output is quiet (or verbose) as well
+        section.set_quiet(self._quiet)
+        section.set_verbosity(self._verbosity)
 
         return section
 
